@@ -103,6 +103,14 @@ def gen_case(rng, i, tier):
     roles = list(pos) + [f"dim:{a}:{p}" for a, ps in pos.items() for p in ps] + ["E0", "E1", "V0", "D0", "D1", "TD", "TN", "F"]
     roles += [f"M{k}" for k in range(6)]
     ren, cats = hostile_naming(rng, roles)
+    if kind == "ufunc" and rng.random() < 0.4:
+        # dummy names live in a namespace of their own: they may be spelled like the real axes, in any order
+        axs = [ren[a] for a in pos]
+        rng.shuffle(axs)
+        if rng.random() < 0.5:
+            axs = [ren[a] for a in reversed(list(pos))]
+        ren["D0"], ren["D1"] = axs[0], axs[1]
+        cats = sorted(set(cats) | {"dummy=axis-name"})
     return {"kind": kind, "pos": pos, "n": {a: rng.randint(2, 4) for a in pos}, "roles": roles, "renaming": ren, "cats": cats,
             "seed": rng.getrandbits(31), "spell": rng.choice(["str", "list", "tuple"])}
 
@@ -155,7 +163,8 @@ def scenario(desc, nm):
     import xarray as xr
     from xgcm import Grid
 
-    inv = {v: k for k, v in nm.items()}
+    inv = {v: k for k, v in nm.items() if k.startswith("D")}
+    inv.update({v: k for k, v in nm.items() if not k.startswith("D")})
     kind = desc["kind"]
     r = np.random.default_rng(desc["seed"])
     out = []
